@@ -336,7 +336,8 @@ theorem applyImp_spec {env : Env} (he : EnvOk env) {s : St} (hi : Inv env s) (id
       (applyImp env s id imp).1.text (s.mockers id).target = overwrite (env.pristine (s.mockers id).target) (jumpTo (impAddr env imp))) ∧
     ((applyImp env s id imp).2 ≠ none → (applyImp env s id imp).1.text (s.mockers id).target = env.pristine (s.mockers id).target) ∧
     (applyImp env s id imp).1.cache = s.cache ∧ (applyImp env s id imp).1.keys = s.keys ∧
-    (∀ j, ((applyImp env s id imp).1.mockers j).target = (s.mockers j).target) := by
+    (∀ j, ((applyImp env s id imp).1.mockers j).target = (s.mockers j).target) ∧
+    ((applyImp env s id imp).2 = none → ((applyImp env s id imp).1.mockers id).canceled = false) := by
   obtain ⟨r1, r2, r3, r4, r5, r6, _, r8⟩ := replaceFunc_spec he hi (s.mockers id).target (impAddr env imp) (s.mockers id).origin
   unfold applyImp
   simp only []
@@ -347,9 +348,10 @@ theorem applyImp_spec {env : Env} (he : EnvOk env) {s : St} (hi : Inv env s) (id
     cases res with
     | error e =>
       simp only []
-      refine ⟨r1, r3, ?_, fun _ => r2, r5, r6, ?_⟩
+      refine ⟨r1, r3, ?_, fun _ => r2, r5, r6, ?_, ?_⟩
       · intro h; cases h
       · intro j; rw [r4]
+      · intro h; cases h
     | ok g =>
       simp only []
       obtain ⟨fr, _⟩ := r8 g rfl
@@ -358,7 +360,7 @@ theorem applyImp_spec {env : Env} (he : EnvOk env) {s : St} (hi : Inv env s) (id
       have hgo : ((guardApply s1 g).guards g).origin = (s.mockers id).target := by
         simp [guardApply, upd, fr.origin]
       have hm : (guardApply s1 g).mockers = s.mockers := by simp [guardApply, r4]
-      refine ⟨⟨a1.saved, a1.txt, a1.reg, ?_, ?_⟩, ?_, ?_, fun h => by simp at h, ?_, ?_, ?_⟩
+      refine ⟨⟨a1.saved, a1.txt, a1.reg, ?_, ?_⟩, ?_, ?_, fun h => by simp at h, ?_, ?_, ?_, fun _ => by simp [upd]⟩
       · intro j g' h
         by_cases hj : j = id
         · simp [upd, hj] at h ⊢; subst h
@@ -483,12 +485,21 @@ theorem clearWhen_spec {env : Env} {s : St} (hi : Inv env s) (id : Nat) :
 theorem applyCb_spec {env : Env} (he : EnvOk env) {s : St} (hi : Inv env s) (id k : Nat) :
     Inv env (applyCb env s id k).1 ∧
     (applyCb env s id k).1.text = (applyImp env s id (.cb k)).1.text ∧
-    (applyCb env s id k).2 = (applyImp env s id (.cb k)).2 := by
+    (applyCb env s id k).2 = (applyImp env s id (.cb k)).2 ∧
+    (applyCb env s id k).1.cache = s.cache ∧
+    ((applyCb env s id k).2 = none → ((applyCb env s id k).1.mockers id).canceled = false) := by
   have a := (applyImp_spec he hi id (.cb k)).1
+  have ac := (applyImp_spec he hi id (.cb k)).2.2.2.2.1
+  have al := (applyImp_spec he hi id (.cb k)).2.2.2.2.2.2.2
   unfold applyCb
   cases h : (applyImp env s id (.cb k)).2 with
-  | none => exact ⟨(clearWhen_spec a id).1, rfl, rfl⟩
-  | some e => exact ⟨a, rfl, rfl⟩
+  | none =>
+    refine ⟨(clearWhen_spec a id).1, rfl, rfl, ac, fun _ => ?_⟩
+    have := al h
+    simp [clearWhen, upd, this]
+  | some e =>
+    refine ⟨a, rfl, rfl, ac, ?_⟩
+    intro h'; cases h'
 
 /-! ### Origin, whens, Reset -/
 
